@@ -17,7 +17,7 @@ Fixpoint strip_ptrs (t : ty) : ty := match t with TPtr e => strip_ptrs e | _ => 
 Definition anon_mangle (sf : sfield) : outcome (list sfield) :=
   if negb (sf_anon sf) then Ok [sf]
   else match strip_ptrs (sf_ty sf) with
-       | TStruct fs _ => Ok (filter (fun f => exported (sf_name f)) (unpack fs))
+       | TStruct fs _ => Ok (filter (fun f => xexported (sf_name f)) (unpack fs))
        | TTextU _ _ => Panic 250     (* fields of an opaque TextUnmarshaler struct are not modelled *)
        | t' => Ok [SF (sf_name sf) (sf_tags sf) (sf_anon sf) t']
        end.
@@ -41,7 +41,7 @@ Fixpoint anon_fill (fs : fields) (fvs : list fvt) : outcome (list val * bool) :=
             match a with
             | None => Err 20        (* neither assignable nor convertible: an error (fix: commit), no longer Set's panic *)
             | Some v =>
-                x <- (if exported n then set_into t v else Panic 3) ;;
+                x <- (if xexported n then set_into t v else Panic 3) ;;
                 let nil1 := nilable5 (fst v) && is_vnil (snd v) in
                 b <- anon_fill r fr ;;
                 Ok (x :: fst b, nil1 && snd b)
